@@ -198,6 +198,12 @@ where
     #[pin]
     inner: InnerCheckoutConnecting<T, P, B>,
     connection: Option<P::Connection>,
+
+    /// Whether this checkout owns the pool's "connection in progress" marker for its token.
+    ///
+    /// Only the checkout which placed the marker (and is therefore the one other checkouts are
+    /// waiting on) may remove it again when it goes away without producing a connection.
+    marker: bool,
     meta: ConnectorMeta,
     #[cfg(debug_assertions)]
     id: CheckoutId,
@@ -240,6 +246,9 @@ where
                     waiter: Waiting::NoPool,
                     inner: InnerCheckoutConnecting::ConnectingDelayed(connector.take().unwrap()),
                     connection: None,
+                    // The delayed checkout carries on with the connection attempt, so it also
+                    // takes over responsibility for the marker.
+                    marker: std::mem::take(this.marker),
                     meta: ConnectorMeta::new(), // New meta to avoid holding spans in the spawned task
                     #[cfg(debug_assertions)]
                     id: *this.id,
@@ -277,6 +286,7 @@ where
             waiter: Waiting::NoPool,
             inner: InnerCheckoutConnecting::Connecting(connector),
             connection: None,
+            marker: false,
             meta: ConnectorMeta::new(),
             #[cfg(debug_assertions)]
             id,
@@ -289,6 +299,7 @@ where
         waiter: Receiver<Pooled<P::Connection, B>>,
         connect: Option<Connector<T, P, B>>,
         connection: Option<P::Connection>,
+        marker: bool,
         config: &Config,
     ) -> Self {
         #[cfg(debug_assertions)]
@@ -306,6 +317,7 @@ where
                 waiter: Waiting::Idle(waiter),
                 inner: InnerCheckoutConnecting::Connected,
                 connection,
+                marker,
                 meta,
                 #[cfg(debug_assertions)]
                 id,
@@ -325,6 +337,7 @@ where
                 waiter: Waiting::Idle(waiter),
                 inner,
                 connection,
+                marker,
                 meta,
                 #[cfg(debug_assertions)]
                 id,
@@ -337,6 +350,7 @@ where
                 waiter: Waiting::Connecting(waiter),
                 inner: InnerCheckoutConnecting::Waiting,
                 connection,
+                marker,
                 meta,
                 #[cfg(debug_assertions)]
                 id,
@@ -532,9 +546,12 @@ where
                     tracing::error!(error=%err, "error during delayed drop");
                 }
             });
-        } else if let Some(mut pool) = self.pool.lock() {
-            // Connection is only cancled when no delayed drop occurs.
-            pool.cancel_connection(self.token);
+        } else if self.marker {
+            // Connection is only cancled when no delayed drop occurs, and only by the checkout
+            // which other checkouts are waiting on.
+            if let Some(mut pool) = self.pool.lock() {
+                pool.cancel_connection(self.token);
+            }
         }
     }
 }
